@@ -228,5 +228,13 @@ class ConstantExpressionEvaluator:
         else:
             op_map["/"] = lambda x, y: x / y
 
-        value = self.convert(expr.typ, op_map[op](lhs, rhs))
+        try:
+            func = op_map[op]
+        except KeyError:
+            self.context.error(
+                f'Operator "{op}" cannot be evaluated in this '
+                "constant expression",
+                expr.location,
+            )
+        value = self.convert(expr.typ, func(lhs, rhs))
         return value
